@@ -812,9 +812,16 @@ def oracle_normals(ctx, gen):
                     m = m.reshape(-1)
                 except Exception as e:
                     _fail(ctx, 'ConditionalDiagonalNormal%s raised %s' % (shape, type(e).__name__), 'ConditionalDiagonalNormal', shape, 'raises', case); continue
-                if abs(I - 1) > TOLQ or add > 1e-8:
+                # conditioning of the oracle itself: log_prob evaluates z = (x - mu) / sigma; at sigma = e^-20 and |mu| ~ 8 the subtraction
+                # x - mu keeps ~8 digits, so z (up to 12 on the grid) carries an error ~ ulp * (|mu| + 12 sigma) / sigma and log p an error 12 x
+                # that.  Tolerances follow it (what the far-out row is for — a clamp or floor inside log_prob — is off by a factor)
+                kz = float(((mu.abs() + 12 * sg) / sg).max())
+                tq = TOLQ + 3e-15 * kz * 12 * len(mu)
+                if tq > 0.05:
+                    continue          # the quadrature cannot decide anything for this row
+                if abs(I - 1) > tq or add > 1e-8 + 3e-15 * kz * 12 * len(mu):
                     _fail(ctx, 'ConditionalDiagonalNormal%s row %d: quadrature of exp(log_prob) = %.9g' % (shape, i, I), 'ConditionalDiagonalNormal', shape, 'integral!=1', dict(case, integral=I))
-                if max(abs(a - float(b)) for a, b in zip(means, m)) > TOLQ * (1 + float(sg.max())):
+                if max(abs(a - float(b)) for a, b in zip(means, m)) > tq * (1 + float(sg.max()) + float(mu.abs().max())):
                     _fail(ctx, 'ConditionalDiagonalNormal%s row %d: mean() = %s, quadrature mean %s' % (shape, i, m.tolist(), means), 'ConditionalDiagonalNormal', shape, 'mean', dict(case, quadrature_mean=means))
 
 
